@@ -42,15 +42,19 @@ func errCode(err error, _ interface{}) int {
 }
 
 type txop struct {
-	kind int // 0 send, 1 close
+	kind int // 0 send, 1 close, 3 the server announces a packet size on channel id
 	id   int
 	typ  int
 	pkgs [][][]byte
+	size int
 }
 
 func (o txop) tree() sx.T {
 	if o.kind == 1 {
 		return sx.L{sx.I(1), sx.I(int64(o.id))}
+	}
+	if o.kind == 3 {
+		return sx.L{sx.I(3), sx.I(int64(o.id)), sx.I(int64(o.size))}
 	}
 	var pk sx.L
 	for _, chunks := range o.pkgs {
@@ -144,6 +148,14 @@ func runTx(out *sx.Out, ps int, ids, nr0 []int, ops []txop, tag string) {
 	for _, o := range ops {
 		in = append(in, o.tree())
 		ch := byId[o.id]
+		if o.kind == 3 {
+			e.pc.Feed(packSizePacket(o.id, o.size))
+			if !e.pc.WaitIdle(watchdog) {
+				failed = true
+				break
+			}
+			continue
+		}
 		if o.kind == 1 {
 			ret, _ := within(watchdog, func() { ch.Close() })
 			if !ret {
@@ -181,6 +193,15 @@ func runTx(out *sx.Out, ps int, ids, nr0 []int, ops []txop, tag string) {
 	out.Case(2, sx.L{sx.I(int64(ps)), chl, in}, res, tag)
 }
 
+// packSizePacket: a response consisting of an ENVCHANGE that announces a packet size
+func packSizePacket(channel, size int) []byte {
+	v := []byte(fmt.Sprint(size))
+	member := append([]byte{byte(tds.TDS_ENV_PACKSIZE), byte(len(v))}, v...)
+	member = append(member, 3, '5', '1', '2')
+	body := append([]byte{byte(tds.TDS_ENVCHANGE), byte(len(member)), byte(len(member) >> 8)}, member...)
+	return wirePacket(4, 1, channel, 0, 0, body)
+}
+
 func genTx(rng *sx.Rng, out *sx.Out, n int) {
 	sizes := []int{512, 512, 16, 9, 64, 2048, 600}
 	for k := 0; k < n; k++ {
@@ -207,6 +228,7 @@ func genTx(rng *sx.Rng, out *sx.Out, n int) {
 		if k%7 == 6 {
 			ps = rng.Range(9, 700)
 		}
+		ps0 := ps
 		var ops []txop
 		closed := map[int]bool{}
 		nops := rng.Range(2, 40)
@@ -224,6 +246,16 @@ func genTx(rng *sx.Rng, out *sx.Out, n int) {
 			if closed[id] && rng.Intn(3) != 0 {
 				continue
 			}
+			if rng.Intn(12) == 0 && !closed[id] {
+				// the server announces another packet size (now and then one a packet cannot have): later messages of
+				// every channel use it
+				sz := []int{16, 24, 64, 512, 600, 2048, 8, 7, 70000, 0}[rng.Intn(10)]
+				ops = append(ops, txop{kind: 3, id: id, size: sz})
+				if sz > 8 && sz <= 65535 {
+					ps = sz
+				}
+				continue
+			}
 			psm := ps
 			if psm > 200 {
 				psm = 200 // keep the messages small; boundary lengths relative to the real body size are C01's business
@@ -234,7 +266,7 @@ func genTx(rng *sx.Rng, out *sx.Out, n int) {
 			}
 			ops = append(ops, txop{kind: 0, id: id, typ: []int{15, 15, 1, 3}[rng.Intn(4)], pkgs: msg})
 		}
-		runTx(out, ps, ids, nr0, ops, fmt.Sprintf("tx;channels=%d;ps=%d", nch, ps))
+		runTx(out, ps0, ids, nr0, ops, fmt.Sprintf("tx;channels=%d;ps=%d", nch, ps0))
 	}
 }
 
